@@ -155,5 +155,5 @@ def phases(tier):
   big = tier == 'thorough'
   return [
       {'name': 'static', 'kind': 'hyp', 'strategy': lambda: cases(tier),
-       'run': check_case, 'examples': int((30000 if big else 2000) * k)},
+       'run': check_case, 'examples': int((120000 if big else 2000) * k)},
   ]
